@@ -23,6 +23,12 @@ def vf_jobs(tier):
         J.append(Job('lapseek-%s'%('time' if ds else 'pcm'),'vf/seek_lap.c',defs=(['-DDSEEK'] if ds else []),cuts={'vorbisfile.c':['_ov_initset','_ov_initprime','_ov_getlap','_ov_splice']},unwind=5,object_bits=12,
             witnesses=['rejected','seek failed','seek crossed into the other link'],models=ENV,tags=['C19','C03'],functions=['_ov_d_seek_lap' if ds else '_ov_64_seek_lap','ov_info','ov_halfrate_p'],
             bounds='2 links, short blocks 64..4096, channels 1..3, every error return of every step'))
+    J.append(Job('F-read-float','vf/read_float.c',cuts={'vorbisfile.c':['_fetch_and_process_packet']},unwind=5,object_bits=12,witnesses=['not open','request smaller than the channel count','returned after fetching','no samples'],models=ENV+['contract of _fetch_and_process_packet (F-fetch)'],tags=['C10','C07'],
+        functions=['ov_read_float'],bounds='<=3 fetches per call, pending samples 0..4096, requested length any int >= 1, channels 1..255'))
+    for pg in ([] if q else [0,1]):   # quick tier: no verdict inside 900 s on a loaded machine (symbolic double compare/subtract/multiply)
+        J.append(Job('time-seek%s'%('-page' if pg else ''),'vf/time_seek.c',defs=(['-DPAGE'] if pg else []),cuts={'vorbisfile.c':['ov_pcm_seek_page' if pg else 'ov_pcm_seek']},unwind=5,object_bits=12,solver='kissat',
+            witnesses=['out of range','second link','third link'],models=ENV+['sample seek cut to a recording stub (pcm-exact / page-bisect)'],tags=['C08'],functions=['ov_time_seek_page' if pg else 'ov_time_seek','ov_time_total'],
+            bounds='3 links with a concrete table (8000052 samples @ 8 kHz, 60000 @ 192 kHz, 44100 @ 44.1 kHz); the requested time is any double'))
     J.append(Job('splice','vf/splice.c',defs=['-DCAP=%d'%(3 if q else 4)],unwind=6,object_bits=12,witnesses=['old block shorter','new block shorter','channels fade in from silence'],models=[],tags=['C19','C03'],
         functions=['_ov_splice'],bounds='half blocks of 1..%d samples (scaled), 1..3 channels on either side (symbolic), tagged samples and window coefficients'%(3 if q else 4)))
     J.append(Job('F-crosslap','vf/f_crosslap.c',cuts={'vorbisfile.c':['_ov_initset','_ov_initprime','_ov_getlap','_ov_splice']},unwind=5,object_bits=12,
